@@ -43,6 +43,18 @@ def _product():
     return p()
 
 
+def _product_with_dates(dates):
+    """a forward on the spot at one maturity, or on a monthly Asian average (several payoff dates)"""
+    if not dates:
+        return _product()
+    from rpylib.product.payoff import Forward
+    from rpylib.product.product import Product
+    from rpylib.product.underlying import Asian, Discretisation, Spot
+
+    und = Asian(Discretisation.MONTHLY) if dates["asian"] else Spot()
+    return Product(payoff_underlying=und, payoff=Forward(strike=1.0), maturity=float(dates["T"]))
+
+
 METHODS_1D = ["INVERSION", "BINARYSEARCHTREEADAPTED1D", "ALIAS", "TABLE", "BINARYSEARCHTREE", "HUFFMANNTREE"]
 
 
@@ -50,10 +62,18 @@ METHODS_1D = ["INVERSION", "BINARYSEARCHTREEADAPTED1D", "ALIAS", "TABLE", "BINAR
 def strat_1d(draw, tier):
     g = draw(grid_spec(max_refine=1))
     g["h_rel"] = float(f"{min(1.0, g['h_rel'] * 2):.4g}")  # levels refine further
-    return {"model": draw(chain_model_spec()), "grid": g, "levels": draw(st.integers(1, 3 if tier == "quick" else 4)),
+    # very small initial steps (cells narrower than 1e-8 after refinement) where the grid size does not depend on h
+    model = draw(chain_model_spec())
+    # (finite variation only: the intensity of an infinite-variation chain at such a step cannot be simulated)
+    if g["type"] in ("uniform-fixed", "geometric", "geometric-bounds") and activity(model)[1] and draw(st.integers(0, 4)) == 0:
+        g["h_rel"] = float(f"{g['h_rel'] * draw(st.sampled_from([1e-5, 1e-7, 1e-8])):.4g}")
+    return {"model": model, "grid": g, "levels": draw(st.integers(1, 3 if tier == "quick" else 4)),
             "method": draw(st.sampled_from(METHODS_1D)),
             # next_level is also called without path managers (that is how CouplingSDE advances its 1-d driver)
             "no_pm": draw(st.sampled_from([False, False, True])),
+            # payoff dates: one maturity (1 year or not) or the monthly dates of an Asian underlying
+            "dates": draw(st.sampled_from([{"T": 1.0, "asian": False}, {"T": 0.25, "asian": False}, {"T": 2.5, "asian": False},
+                                           {"T": 0.5, "asian": True}, {"T": 1.0, "asian": True}])),
             "w": [draw(st.floats(-3, 3)) for _ in range(2)]}
 
 
@@ -74,7 +94,10 @@ def body_1d(case):
     if len(grid.axes[0]) * 2 ** case["levels"] > 2500:
         return [Violation("REJECTED", "finest axis larger than the per-case bound")]
     method = SamplingMethod[case["method"]]
-    product = _product()
+    product = _product_with_dates(case.get("dates"))
+    times = np.asarray(product.times_grid(), dtype=float)
+    nb = len(times) - 1
+    wrow = [float(case["w"][i % 2]) * (1.0 + 0.37 * (i // 2)) for i in range(nb)]
     cp = CouplingMarkovChain(model=model, method=method, grid=grid)
     cp.initialisation(product)
     cp.pre_computation(1, product)
@@ -185,21 +208,20 @@ def body_1d(case):
             out.append(Violation(f"{tag}/fine-diffusion-coefficient",
                                  f"level {level}: coupling uses {cp.equivalent_diffusion_coefficient_fine!r}, a fresh chain on "
                                  f"the level grid has {ref_fine.equivalent_diffusion_coefficient!r}; {detail}"))
-        times = np.array([0.0, 0.25, 1.0])
-        exp_dp = np.array([x0 + float(fine.process_drift()) * times, x0 + drift_c * times])
-        dp = exp_dp if case.get("no_pm") else np.asarray(pms[-1].deterministic_path(times), dtype=float)
+        tt = np.array([0.0, 0.25, 1.0])
+        exp_dp = np.array([x0 + float(fine.process_drift()) * tt, x0 + drift_c * tt])
+        dp = exp_dp if case.get("no_pm") else np.asarray(pms[-1].deterministic_path(tt), dtype=float)
         if dp.shape != exp_dp.shape or not np.allclose(dp, exp_dp, rtol=1e-12, atol=1e-12):
             out.append(Violation(f"{tag}/coarse-deterministic-path",
                                  f"level {level}: {dp.tolist()} vs fine/coarse drifts {float(fine.process_drift())!r}, "
                                  f"{drift_c!r}; {detail}"))
-        w = [[case["w"][0]]]
-        fine._path_simulation._brownian_increments = deque([w])
-        fine._path_simulation._poisson_rv = deque([[0]])
+        fine._path_simulation._brownian_increments = deque([[list(wrow)]])
+        fine._path_simulation._poisson_rv = deque([[0] * nb])
         path = cp.simulate_one_path_with_coupling()
         diff = np.asarray(path.diffusion_path, dtype=float)
-        exp_diff = np.array([[0.0, float(cp.equivalent_diffusion_coefficient_fine) * case["w"][0]],
-                             [0.0, coef_c * case["w"][0]]])
-        if diff.shape != exp_diff.shape or not np.allclose(diff, exp_diff, rtol=1e-13, atol=1e-15):
+        bm = np.concatenate(([0.0], np.cumsum(np.sqrt(np.diff(times)) * np.array(wrow))))
+        exp_diff = np.array([float(cp.equivalent_diffusion_coefficient_fine) * bm, coef_c * bm])
+        if diff.shape != exp_diff.shape or not np.allclose(diff, exp_diff, rtol=1e-12, atol=1e-15):
             out.append(Violation(f"{tag}/fine-and-coarse-do-not-share-the-brownian-increment",
                                  f"level {level}: {diff.tolist()} vs {exp_diff.tolist()}; {detail}"))
         if len(fine._path_simulation._brownian_increments) != 0:
@@ -213,6 +235,10 @@ def classify_1d(case):
     labels = [branch_of(case["model"]), case["grid"]["type"], f"levels={case['levels']}", case["method"]]
     if case.get("no_pm"):
         labels.append("without-path-managers")
+    d = case.get("dates") or {"T": 1.0, "asian": False}
+    if case["grid"]["h_rel"] < 1e-3:
+        labels.append("tiny-initial-step")
+    labels.append("payoff-dates=" + ("monthly-asian" if d["asian"] else ("T=1" if d["T"] == 1.0 else "T!=1")))
     return labels, True
 
 
@@ -233,6 +259,7 @@ def strat_copula(draw, tier):
     elif g["type"] == "uniform":
         g["h_rel"] = max(g["h_rel"], 2.0)
     case["method"] = draw(st.sampled_from(["INVERSION", "BINARYSEARCHTREEADAPTED"]))
+    case["dates"] = draw(st.sampled_from([{"T": 0.25, "asian": False}, {"T": 0.5, "asian": True}, {"T": 2.0, "asian": False}]))
     return case
 
 
@@ -415,6 +442,30 @@ def body_copula(case):
     exp_dp = np.array([x0 + np.asarray(fine.process_drift(), dtype=float) * times, x0 + drift_c * times])
     if dp.shape != exp_dp.shape or not np.allclose(dp, exp_dp, rtol=1e-12, atol=1e-12):
         out.append(Violation(f"{tag}/coarse-deterministic-path", f"{dp.tolist()} vs {exp_dp.tolist()}; {detail}"))
+    # the two components are driven by the same Brownian increments, one pre-drawn row per sample, over the payoff dates
+    prod2 = _product_with_dates(case.get("dates") or {"T": 0.5, "asian": True})
+    tg = np.asarray(prod2.times_grid(), dtype=float)
+    nb = len(tg) - 1
+    cp.pre_computation(2, prod2)
+    rng = np.random.RandomState(11)
+    rows = [rng.normal(size=(d, nb)) for _ in range(2)]
+    fine._path_simulation._brownian_increments = deque([r.tolist() for r in rows])
+    fine._path_simulation._poisson_rv = deque([[0] * nb, [0] * nb])
+    m_h = np.asarray(fine._path_simulation.diffusion_matrix, dtype=float)
+    for i, r in enumerate(rows):
+        path = cp.simulate_one_path_with_coupling()
+        got = np.asarray(path.diffusion_path, dtype=float)
+        bm = np.cumsum(np.sqrt(np.diff(tg)) * r, axis=1)
+        exp = np.zeros((2, d, nb + 1))
+        exp[0][:, 1:] = m_h @ bm
+        exp[1][:, 1:] = diff_c @ bm
+        alt = np.transpose(exp, (0, 2, 1))
+        if not any(got.shape == e.shape and np.allclose(got, e, rtol=1e-12, atol=1e-15) for e in (exp, alt)):
+            out.append(Violation(f"{tag}/fine-and-coarse-do-not-share-the-brownian-increments-of-the-sample",
+                                 f"sample {i}, dates {tg.tolist()}: diffusion part {got.tolist()} vs {exp.tolist()}; {detail}"))
+            break
+    if len(fine._path_simulation._brownian_increments) != 0:
+        out.append(Violation(f"{tag}/brownian-increments-not-consumed", detail))
     return out
 
 
